@@ -36,6 +36,9 @@ type Case struct {
 	// Strategy: "" = shipped default; otherwise "<strategy>/<fallback>[/refresh]" of model routing
 	// (only combined with the modes in which no endpoint is healthy)
 	Strategy string `json:"strategy,omitempty"`
+	// NoModel: the request names no model (a chat body relying on the backend's default model, or a
+	// bodyless GET of a native path); proxy and provider routes only
+	NoModel string `json:"no_model,omitempty"` // "" | body | get
 }
 
 var (
@@ -207,12 +210,28 @@ func runCase(c Case) []ev.Violation {
 		target = "/olla/anthropic/v1/messages"
 		body = fmt.Sprintf(`{"model":%q,"max_tokens":32%s,"messages":[{"role":"user","content":%q}]}`, reqModel, streamField, c.ReqText)
 	}
-	req := rawclient.Request("POST", target, [][2]string{{"Content-Type", "application/json"}, {"Connection", "close"}}, []byte(body), nil)
+	method := "POST"
+	if !strings.HasPrefix(c.Route, "anthropic") && c.Mode != "unknown-model" {
+		switch c.NoModel {
+		case "body":
+			body = fmt.Sprintf(`{"messages":[{"role":"user","content":%q}]%s}`, c.ReqText, streamField)
+			rec.Class("request-names-no-model/body")
+		case "get":
+			method, body = "GET", ""
+			target = strings.Replace(target, "/v1/chat/completions", "/v1/version", 1)
+			rec.Class("request-names-no-model/get")
+		}
+	}
+	req := rawclient.Request(method, target, [][2]string{{"Content-Type", "application/json"}, {"Connection", "close"}}, []byte(body), nil)
 	t0 := time.Now()
 	resp, err := rawclient.Do(r.S.Addr, req, 15*time.Second)
 	dur := time.Since(t0)
 	rec.Eval(1)
 	if err != nil {
+		if e := strings.ToLower(err.Error()); !strings.Contains(e, "timeout") && !strings.Contains(e, "deadline") && dur < 10*time.Second {
+			// no HTTP response at all (connection closed / reset by Olla): the failure was not reported
+			return []ev.Violation{{Sig: fmt.Sprintf("no-http-response/%s/%s", c.Mode, c.Route), Detail: fmt.Sprintf("engine=%s route=%s stream=%v mode=%s no-model=%q: the client got no HTTP response at all (%v after %v) - what a handler panic recovered by net/http looks like", c.Engine, c.Route, c.Stream, c.Mode, c.NoModel, err, dur.Round(time.Millisecond))}}
+		}
 		rec.Inconclusive("client: " + err.Error())
 		return nil
 	}
@@ -368,6 +387,9 @@ func genCase(t *rapid.T) Case {
 	c.Status = rapid.SampledFrom(statuses).Draw(t, "status")
 	c.ErrBody = rapid.SampledFrom([]string{"openai", "otherjson", "html", "empty", "big-json", "big-html", "plain words", `{"error":"a string, not an object"}`, `{"error":{"message":""}}`, "[1,2,3]", "null"}).Draw(t, "errbody")
 	c.BadBody = rapid.SampledFrom([]string{"truncated", "notjson", "empty", "error-object", "no-choices", "empty-object"}).Draw(t, "badbody")
+	if c.Route == "proxy" || c.Route == "provider" {
+		c.NoModel = rapid.SampledFrom([]string{"", "", "", "body", "get"}).Draw(t, "nomodel")
+	}
 	if (c.Mode == "no-endpoints" || c.Mode == "all-unhealthy") && rapid.Bool().Draw(t, "otherstrategy") {
 		c.Strategy = rapid.SampledFrom(strategies).Draw(t, "strategy")
 	}
@@ -376,7 +398,7 @@ func genCase(t *rapid.T) Case {
 
 func TestC05(t *testing.T) {
 	defer rig.StopAll()
-	rec.SetRule("the grid failure mode {no endpoints, all unhealthy (both also under the optimistic and discovery routing strategies with every fallback), unknown model, every endpoint refusing / resetting before headers / closing without answer, backend 400..503 x error body {OpenAI error JSON, other JSON, HTML, empty}, 2xx with a malformed body or with valid JSON that is not a completion (error object, no choices, {})} x route {proxy, provider, Anthropic translated, Anthropic passthrough} x stream flag x engine x endpoint count is enumerated completely; rapid adds request texts and further error bodies. Client status, Content-Type, body shape and completion time are judged. non-trivial = at least one backend is contacted (or dialled) and fails; distinct by the full tuple")
+	rec.SetRule("the grid failure mode {no endpoints, all unhealthy (both also under the optimistic and discovery routing strategies with every fallback), unknown model, every endpoint refusing / resetting before headers / closing without answer, backend 400..503 x error body {OpenAI error JSON, other JSON, HTML, empty}, 2xx with a malformed body or with valid JSON that is not a completion (error object, no choices, {})} x route {proxy, provider, Anthropic translated, Anthropic passthrough} x stream flag x engine x endpoint count is enumerated completely; rapid adds request texts, further error bodies and requests that name no model (a chat body without a model member, a bodyless GET). A connection closed without any HTTP response is a violation. Client status, Content-Type, body shape and completion time are judged. non-trivial = at least one backend is contacted (or dialled) and fails; distinct by the full tuple")
 	rec.Assume("promptness is a one-sided bound: instantaneous faults must be reported within 10 s while every configured timeout is >= 60 s")
 	rec.Assume("for a 2xx backend answer with a malformed body only the non-streaming translated path is asserted (non-2xx Anthropic error); closed-without-answer only requires a non-2xx")
 	if ev.Replay(t, rec, "failure", runCase) {
